@@ -18,6 +18,7 @@ type Ctx struct {
 	Old       *Ctx
 	LoopEntry *Ctx
 	where     string
+	lazyStruct bool
 }
 
 func (c *Ctx) with(vars map[string]Val) *Ctx {
@@ -120,6 +121,13 @@ func (c *Ctx) tr(x ast.Expr) Val {
 			if v, ok := c.E.lookupLocal(c, x.Name); ok {
 				return v
 			}
+			if gt, ok := c.E.W.Specs.GhostVars[x.Name]; ok && c.St != nil {
+				t := specType(gt)
+				return Val{t, []string{c.E.heapKey(c.St, "g:ghost."+x.Name, flatten(t)[0])}}
+			}
+			if v, ok := c.E.globalByName(c, x.Name); ok {
+				return v
+			}
 		}
 		c.fail(x, "unknown identifier %s", x.Name)
 	case *ast.UnaryExpr:
@@ -170,7 +178,13 @@ func (c *Ctx) tr(x ast.Expr) Val {
 		}
 		c.fail(x, "cannot slice %s", b.T)
 	case *ast.SelectorExpr:
+		// a.b.c: intermediate struct-valued fields are addressed, not loaded
+		saved := c.lazyStruct
+		_, chained := x.X.(*ast.SelectorExpr)
+		c.lazyStruct = chained || saved
+		c.lazyStruct = true
 		b := c.tr(x.X)
+		c.lazyStruct = saved
 		return c.selectField(x, b, x.Sel.Name)
 	case *ast.StarExpr:
 		b := c.tr(x.X)
@@ -197,6 +211,9 @@ func (c *Ctx) selectField(x ast.Expr, b Val, name string) Val {
 	for i := 0; i < st.NumFields(); i++ {
 		if st.Field(i).Name() == name {
 			if isPtr {
+				if _, isSt := st.Field(i).Type().Underlying().(*types.Struct); isSt && c.lazyStruct {
+					return Val{types.NewPointer(st.Field(i).Type()), []string{subRef(b.C[0], i)}}
+				}
 				return c.E.loadField(c.St, t, i, b.C[0])
 			}
 			lo, hi := fieldRange(st, i)
@@ -208,7 +225,11 @@ func (c *Ctx) selectField(x ast.Expr, b Val, name string) Val {
 		if st.Field(i).Embedded() {
 			var inner Val
 			if isPtr {
-				inner = c.E.loadField(c.St, t, i, b.C[0])
+				if _, isSt := st.Field(i).Type().Underlying().(*types.Struct); isSt {
+					inner = Val{types.NewPointer(st.Field(i).Type()), []string{subRef(b.C[0], i)}}
+				} else {
+					inner = c.E.loadField(c.St, t, i, b.C[0])
+				}
 			} else {
 				lo, hi := fieldRange(st, i)
 				inner = Val{st.Field(i).Type(), b.C[lo:hi]}
@@ -413,8 +434,58 @@ func (c *Ctx) trCall(x *ast.CallExpr) Val {
 			return bval(fmt.Sprintf("(forall ((%s Int)) %s)", bv, imp(rng, body)))
 		}
 		return bval(fmt.Sprintf("(exists ((%s Int)) %s)", bv, and(rng, body)))
-	case "errIs", "isNil", "typeIs":
-		return c.E.specialPred(c, name, x)
+	case "same":
+		a, b := c.tr(args[0]), c.tr(args[1])
+		if len(a.C) != len(b.C) {
+			c.fail(x, "same(): shapes differ")
+		}
+		return bval(valEq(a, b))
+	case "store":
+		a := c.tr(args[0])
+		i := c.intT(args[1])
+		v := c.tr(args[2])
+		return Val{a.T, []string{app("store", a.C[0], i, v.C[0])}}
+	case "typeIs":
+		// typeIs(ifaceValue, "pkg.Type") / typeIs(v, "*pkg.Type")
+		v := c.tr(args[0])
+		lit, _ := litOf(args[1])
+		return bval(eq(v.C[0], c.E.tagByName(lit)))
+	case "isNil":
+		v := c.tr(args[0])
+		return bval(eq(v.C[0], "0"))
+	case "ptrOf":
+		// payload of an interface value holding a pointer
+		v := c.tr(args[0])
+		lit, _ := litOf(args[1])
+		return Val{c.E.typeByName(lit), []string{v.C[1]}}
+	case "unbox":
+		v := c.tr(args[0])
+		lit, _ := litOf(args[1])
+		return c.E.boxLoad(c.St, c.E.typeByName(lit), v.C[1])
+	case "ref":
+		v := c.tr(args[0])
+		return ival(v.C[0])
+	}
+	if c.E != nil {
+		if p, ok := c.E.W.Specs.Preds[name]; ok {
+			if len(args) != len(p.Params) {
+				c.fail(x, "pred %s takes %d args", name, len(p.Params))
+			}
+			vars := map[string]Val{}
+			for i, a := range args {
+				vars[p.Params[i].Name] = c.tr(a)
+			}
+			inner := &Ctx{E: c.E, Vars: vars, St: c.St, where: c.where + " pred " + name}
+			if c.Old != nil {
+				ovars := map[string]Val{}
+				for i, a := range args {
+					// arguments are values; old() inside the body refers to the old heap
+					ovars[p.Params[i].Name] = c.tr(a)
+				}
+				inner.Old = &Ctx{E: c.E, Vars: ovars, St: c.Old.St, where: c.where + " pred " + name + " old"}
+			}
+			return inner.tr(p.Body)
+		}
 	}
 	if c.E != nil {
 		if l, ok := c.E.W.Specs.Lemmas[name]; ok {
